@@ -15,7 +15,7 @@ import (
 func init() {
 	register("C18", PropCheck{
 		Title:      "The selected language reaches every lookup and survives the session",
-		Explain:    "Plumbing of the language selection, decided on every path: (R1) in engine, vm, render and resource every call that takes a context.Context is given a context derived from the caller's own context parameter through context.WithValue only (never Background/TODO or a stored context); (R2) the context handed to the VM by Exec and init, and to the renderer by Flush, carries the language: it derives from WithValue(ctx, \"Language\", *State.Language), the call into VM/renderer is only reached through that injection or the Language==nil edge, and the injection happens after the state has been established (after init in Exec, after prepare in init) - so a session resumed from a persister gets its language on its first request; in Vm.Run the context is re-injected on the 'LANG flag was set' edge and flows into every handler call; (R3) every writer of the language context value uses key \"Language\" with a lang.Language value (not a pointer) and every reader asserts exactly that type under that key; (R4) State.Language and the fields of lang.Language are part of the persisted snapshot; (R5) DbBase.ToKey produces the translation key on every path on which a language is selected (context or explicit), so translated entries are looked up whenever they may exist, and the default key always; (R6) State.Language is only set non-nil behind the success edge of LanguageFromCode; (R9) after every successful call of external code the LANG flag is tested and State.SetLanguage applied on its set edge - inside the invoker (today) or, if not there, after the invoker call in every one of its callers (added after seeded change C18-F, which moved the update into the LOAD handler and left RELOAD without it); (R10) the configured default language never replaces a selected one: every State.SetLanguage in the engine whose argument is Config.Language lies behind the 'no state yet' or 'State.Language == nil' edge, in the function itself or at every call site of the helper (added after seeded change C18-G, which re-applied the configured language at every reset). (R11) in every function of package engine that injects the language, from the 'State.Language is set' edge every path reaches the injection before any call other than logging or a return: nothing else - a language already on the caller's context - decides (added after seeded change C18-M). (R12) every success return of State.SetLanguage passes a store to State.Language: no acknowledged-and-dropped switch (added after seeded change C18-N).",
+		Explain:    "Plumbing of the language selection, decided on every path: (R1) in engine, vm, render and resource every call that takes a context.Context is given a context derived from the caller's own context parameter through context.WithValue only (never Background/TODO or a stored context); (R2) the context handed to the VM by Exec and init, and to the renderer by Flush, carries the language: it derives from WithValue(ctx, \"Language\", *State.Language), the call into VM/renderer is only reached through that injection or the Language==nil edge, and the injection happens after the state has been established (after init in Exec, after prepare in init) - so a session resumed from a persister gets its language on its first request; in Vm.Run the context is re-injected on the 'LANG flag was set' edge and flows into every handler call; (R3) every writer of the language context value uses key \"Language\" with a lang.Language value (not a pointer) and every reader asserts exactly that type under that key; (R4) State.Language and the fields of lang.Language are part of the persisted snapshot; (R5) DbBase.ToKey produces the translation key on every path on which a language is selected (context or explicit), so translated entries are looked up whenever they may exist, and the default key always; (R6) State.Language is only set non-nil behind the success edge of LanguageFromCode; (R9) after every successful call of external code the LANG flag is tested and State.SetLanguage applied on its set edge - inside the invoker (today) or, if not there, after the invoker call in every one of its callers (added after seeded change C18-F, which moved the update into the LOAD handler and left RELOAD without it); (R10) the configured default language never replaces a selected one: every State.SetLanguage in the engine whose argument is Config.Language lies behind the 'no state yet' or 'State.Language == nil' edge, in the function itself or at every call site of the helper (added after seeded change C18-G, which re-applied the configured language at every reset). (R11) in every function of package engine that injects the language, from the 'State.Language is set' edge every path reaches the injection before any call other than logging or a return: nothing else - a language already on the caller's context - decides (added after seeded change C18-M). (R12) every success return of State.SetLanguage passes a store to State.Language: no acknowledged-and-dropped switch (added after seeded change C18-N). (R13) outside package db no library function calls SetLanguage on a store handle (added after seeded change C18-O). (R14) in Menu.Render every call of the label resolver (the Menu method that calls Resource.GetMenu) is reachable only through the browse step that adds the lateral entries (added after seeded change C18-P).",
 		NotDecided: "that third-party Resource implementations use the context language; gettext catalog contents; the translation-then-default lookup order inside each backend is C10 R3.",
 		Run:        runC18,
 	})
@@ -149,6 +149,8 @@ func runC18(w *core.World, r *core.Report) {
 	r.Rule("R6", "State.Language set non-nil only behind LanguageFromCode success")
 	r.Rule("R7", "Vm.Run resets FLAG_LANG before every instruction, unconditionally (documented lifetime: next instruction)")
 	r.Rule("R8", "language-scoped lookups are not memoised in the shared Resource objects")
+	r.Rule("R14", "menu labels are resolved through the resource after the browse entries were added (lateral entries are translated too)")
+	r.Rule("R13", "the library never sets the language of a store handle (outside package db no call of Db.SetLanguage)")
 	r.Rule("R12", "State.SetLanguage reports success only after storing a language (no acknowledged-and-dropped switch)")
 	r.Rule("R11", "whether the engine injects the language depends on State.Language alone (a language already on the caller context is replaced)")
 	r.Rule("R10", "the configured default language is applied only when the session has none (behind 'no state yet' or State.Language == nil, here or at every call site)")
@@ -356,6 +358,8 @@ func runC18(w *core.World, r *core.Report) {
 	// ---- R10 ----------------------------------------------------------------------------------
 	checkConfigLanguageOnlyWhenNone(w, r, "R10")
 	checkSetLanguageAlwaysSets(w, r, "R12")
+	checkHandleLanguageIsTheApplications(w, r, "R13")
+	checkLabelsResolvedAfterBrowseEntries(w, r, "R14")
 	checkInjectionDependsOnSessionLanguageOnly(w, r, "R11")
 
 	// ---- R3 -----------------------------------------------------------------------------------
